@@ -93,15 +93,28 @@ Theorem C06_norm_tree_idempotent : forall t : tree, norm_tree (norm_tree t) = no
 Proof. exact norm_tree_idempotent. Qed.
 Print Assumptions C06_norm_tree_idempotent.
 
-(* known finding C06-compare-stale-parent-cycle: an admissible history after which compareDocumentPosition of two
-   siblings' text nodes does not return, where the tree says FOLLOWING (replayed on the real code: same) *)
+(* M4 (compareDocumentPosition).  The full statement -- for two nodes of one tree of a consistent heap the answer is
+   the position of [o] relative to [s] in document order (CONTAINS / CONTAINED_BY for ancestors, else PRECEDING /
+   FOLLOWING by the lexicographic order of the child-index paths from the root) -- is REFUTED on the faithful Model by
+   the known finding C06-compare-stale-parent-cycle: an admissible history after which the comparison of two children
+   of one element does not return (replayed on the real code: same). *)
 Theorem C06_compare_stale_cycle_refuted :
   exists (ops : list op) (s o : nat),
     forallb covered ops = true /\ adm_hist [] ops = true /\
     let h := run [] ops in
-    wf_b h = true /\ root_of h s = root_of h o /\ spec_compare h s o = POS_FOLLOWING /\ compare_pos h s o = VHang.
+    wf_b h = true /\ root_of h s = root_of h o /\ spec_compare_dewey h s o = POS_FOLLOWING /\ compare_pos h s o = VHang.
 Proof. exact compare_stale_cycle_refuted. Qed.
 Print Assumptions C06_compare_stale_cycle_refuted.
+
+(* It is proved under the explicit exclusion of that input class: the root of the tree carries no parentNode link
+   (i.e. it was not removed from / cloned below some other node before).  This covers the shortcut through
+   previousSibling / nextSibling, the two ancestor walks, and the nested loops over the two ancestor chains (fix-3). *)
+Theorem C06_compare_partial :
+  forall (h : heap) (s o : nat), wf_b h = true -> s < length h -> o < length h -> listed_in_frag h s = false ->
+    root_of h s = root_of h o -> parent h (root_of h s) = None ->
+    compare_pos h s o = VVal (spec_compare_dewey h s o).
+Proof. exact compare_partial. Qed.
+Print Assumptions C06_compare_partial.
 
 (* the invariant, clause by clause (what [wf_b h = true] means) *)
 Theorem C06_wf_meaning :
